@@ -926,6 +926,28 @@ impl Callbacks for Cb {
             bodies.push((ldid, b));
         }
         bodies.sort_by_key(|(l, _)| l.local_def_index.as_usize());
+        // Test harness units re-compile the whole library; only the expansions of the codec
+        // derives / hand-written codec impls inside them are used (corpus of C16), so keep just
+        // the bodies that belong to impls of the codec traits.
+        if self.is_test {
+            bodies.retain(|(ldid, _)| {
+                let root = tcx.typeck_root_def_id(ldid.to_def_id());
+                if let Some(assoc) = tcx.opt_associated_item(root) {
+                    let cont = assoc.container_id(tcx);
+                    if let DefKind::Impl { .. } = tcx.def_kind(cont) {
+                        if let Some(tr) = tcx.impl_opt_trait_ref(cont) {
+                            let tr = tr.instantiate_identity().skip_norm_wip();
+                            let name = tcx.item_name(tr.def_id).to_string();
+                            return matches!(
+                                name.as_str(),
+                                "Serialize" | "Deserialize" | "Introspectable" | "SerializeKey" | "DeserializeKey"
+                            );
+                        }
+                    }
+                }
+                false
+            });
+        }
         if tcx.dcx().has_errors().is_some() {
             return Compilation::Continue;
         }
